@@ -70,8 +70,11 @@ def run(tier, replay=None):
             add(sg.run_static(wd, "g3_%d" % lo, res, g3_range=(lo, lo + step - 1), timeout=2400))
     for off in range(0, len(variants), 400):
         add(sg.run_static(wd, "gen_%d" % off, res, gen_programs=[v[2] for v in variants[off:off + 400]]), gen_offset=off)
+    only = os.environ.get("VERIF_C13_ONLY")      # developer knob for scratch experiments (mutation testing): families to run
+    if only:
+        cases = [c for c in cases if c[1] in only.split(",")]
     res.cov["programs_enumerated"] = len(cases)
-    res.cov["exhaustive"] = not quick
+    res.cov["exhaustive"] = not quick and not only
     fam_counts = {}
     for c in cases:
         k = "%s_%s" % (c[1], c[3]); fam_counts[k] = fam_counts.get(k, 0) + 1
